@@ -1,8 +1,12 @@
 //! Correspondence harness: runs the real tarpc code on scripted operation sequences and prints
 //! canonical observations as Coq terms (one case per line) for the model to be compared with.
 mod c13;
+mod c19;
+mod c20;
+mod cli;
 mod exec;
 mod rng;
+mod srv;
 mod stransport;
 mod vclock;
 
@@ -48,6 +52,81 @@ fn main() {
                 .iter()
                 .filter_map(|l| c13::parse(l))
                 .map(|s| c13::to_case(&s))
+                .collect();
+            write_cases(&out.expect("--out"), &cases);
+        }
+        ("cli", "gen") => {
+            let bias = cli::bias_of(&arg(&args, "--prop").unwrap_or_default());
+            let mut rng = Rng::new(seed);
+            let mut w = open_out(&out);
+            for _ in 0..count {
+                writeln!(w, "{}", cli::show(&cli::gen(&mut rng, bias))).unwrap();
+            }
+        }
+        ("cli", "run") => {
+            let cases: Vec<Case> = read_lines(&input)
+                .iter()
+                .filter_map(|l| cli::parse(l))
+                .map(|s| cli::to_case(&s))
+                .collect();
+            write_cases(&out.expect("--out"), &cases);
+        }
+        ("c19", "gen") => {
+            let mut rng = Rng::new(seed);
+            let mut w = open_out(&out);
+            for _ in 0..count {
+                writeln!(w, "{}", c19::show(&c19::gen(&mut rng))).unwrap();
+            }
+        }
+        ("c19", "sweep") => {
+            let mut w = open_out(&out);
+            c19::sweep(|s| writeln!(w, "{}", c19::show(&s)).unwrap());
+        }
+        ("c19", "run") => {
+            let cases: Vec<Case> = read_lines(&input)
+                .iter()
+                .filter_map(|l| c19::parse(l))
+                .map(|s| c19::to_case(&s))
+                .collect();
+            write_cases(&out.expect("--out"), &cases);
+        }
+        ("srv", "gen") => {
+            let bias = arg(&args, "--prop").unwrap_or_default();
+            let mut rng = Rng::new(seed);
+            let mut w = open_out(&out);
+            for _ in 0..count {
+                writeln!(w, "{}", srv::show(&srv::gen(&mut rng, &bias))).unwrap();
+            }
+        }
+        ("srv", "sweep") => {
+            let bias = arg(&args, "--prop").unwrap_or_default();
+            let mut w = open_out(&out);
+            srv::sweep(&bias, |s| writeln!(w, "{}", srv::show(&s)).unwrap());
+        }
+        ("srv", "run") => {
+            let cases: Vec<Case> = read_lines(&input)
+                .iter()
+                .filter_map(|l| srv::parse_any(l))
+                .map(|s| srv::any_to_case(&s))
+                .collect();
+            write_cases(&out.expect("--out"), &cases);
+        }
+        ("c20", "gen") => {
+            let mut rng = Rng::new(seed);
+            let mut w = open_out(&out);
+            for _ in 0..count {
+                writeln!(w, "{}", c20::show(&c20::gen(&mut rng))).unwrap();
+            }
+        }
+        ("c20", "sweep") => {
+            let mut w = open_out(&out);
+            c20::sweep(|s| writeln!(w, "{}", c20::show(&s)).unwrap());
+        }
+        ("c20", "run") => {
+            let cases: Vec<Case> = read_lines(&input)
+                .iter()
+                .filter_map(|l| c20::parse(l))
+                .map(|s| c20::to_case(&s))
                 .collect();
             write_cases(&out.expect("--out"), &cases);
         }
